@@ -688,7 +688,7 @@ pub fn prepare_aggregation(
                 Type::encoded(Codec::integer_cast(aggregate_type)),
             )
         }
-        Aggregator::SumI64 if matches!(decoded_type, BasicType::Integer | BasicType::NullableInteger) => {
+        Aggregator::SumI64 if matches!(decoded_type, BasicType::Integer | BasicType::NullableInteger | BasicType::Null) => {
             if !plan_type.is_summation_preserving() {
                 plan = plan_type.codec.decode(plan, planner);
             }
@@ -723,7 +723,7 @@ pub fn prepare_aggregation(
                 Type::unencoded(aggregate_type),
             )
         }
-        Aggregator::MaxI64 | Aggregator::MinI64 if matches!(plan_type.decoded, BasicType::Integer | BasicType::NullableInteger) => {
+        Aggregator::MaxI64 | Aggregator::MinI64 if matches!(plan_type.decoded, BasicType::Integer | BasicType::NullableInteger | BasicType::Null) => {
             // PERF: don't always have to decode before taking max/min, and after is more efficient (e.g. dict encoded strings)
             plan = plan_type.codec.decode(plan, planner);
             let aggregate_type = if nullable { BasicType::NullableInteger } else { BasicType::Integer };
